@@ -135,6 +135,9 @@ type H3Scenario struct {
 	RawSrv  bool          `json:"raw_srv,omitempty"` // mirror image: a scripted server answers http3.Transport with Streams
 	Reqs    []H3Req       `json:"reqs,omitempty"`
 	Streams []H3RawStream `json:"streams,omitempty"`
+	// no qlog tracer on either endpoint (the default of every application): whatever the code records for a trace must
+	// not be needed - or dereferenced - when nobody records
+	NoQlog bool `json:"no_qlog,omitempty"`
 }
 
 func (s *H3Scenario) KSeed() uint64 { return s.Seed }
@@ -266,7 +269,7 @@ func h3GenNet(r *KRng, n *WNet, faulty bool) {
 
 func genH3(seed uint64, tier string) KScenario {
 	r := NewKRng(seed)
-	sc := &H3Scenario{Seed: seed}
+	sc := &H3Scenario{Seed: seed, NoQlog: KMix(seed, 0x71a6)%2 == 0}
 	genCommonCfg(r, &sc.Cfg)
 	sc.Cfg.IdleMS = [2]int64{int64(r.Pick(8000, 15000, 30000)), int64(r.Pick(8000, 15000, 30000))}
 	sc.Faulty = r.P(0.35)
@@ -1549,6 +1552,9 @@ func runH3(t *testing.T, ksc KScenario, res *KResult) {
 	if err != nil {
 		res.Fail("spec could not be built", "%v", err)
 		return
+	}
+	if sc.NoQlog {
+		nodes.CQ.Tracer, nodes.SQ.Tracer = nil, nil
 	}
 	wo := NewWireOracles(w, nodes, res)
 	x := &h3Run{sc: sc, res: res, w: w, nodes: nodes, on: wOraclesEnabled("C18")}
